@@ -102,7 +102,7 @@ func nearDupCases(c *engine.Ctx, stream string) []*core.PCase {
 			if swap {
 				a, b = b, a
 			}
-			for _, way := range []string{"sibling-properties", "definitions", "definition-and-property", "array-items"} {
+			for _, way := range []string{"sibling-properties", "definitions", "definition-and-property", "array-items", "after-shared-definition"} {
 				var schema sgen.M
 				var mk func(x, y any) any
 				first, second := sgen.DeepCopy(a).(sgen.M), sgen.DeepCopy(b).(sgen.M)
@@ -119,6 +119,19 @@ func nearDupCases(c *engine.Ctx, stream string) []*core.PCase {
 					// the definition RootP is generated first, the property p of Root asks for RootP again
 					schema = sgen.M{"type": "object", "properties": sgen.M{"p": second, "q": sgen.M{"$ref": "#/$defs/RootP"}}, "$defs": sgen.M{"RootP": first}}
 					mk = func(x, y any) any { return pairDoc("q", x, "p", y) }
+				case "after-shared-definition":
+					// not a name collision but a SHARED NODE: both uses fold the same definition in first and add an inline
+					// branch of their own; whatever the first use's merge does to the definition, the second must not see
+					schema = sgen.M{"type": "object", "$defs": sgen.M{"Base": sgen.M{"type": "object", "properties": sgen.M{"id": sgen.M{"type": "string"}}}},
+						"properties": sgen.M{"x": sgen.M{"allOf": []any{sgen.M{"$ref": "#/$defs/Base"}, first}}, "y": sgen.M{"allOf": []any{sgen.M{"$ref": "#/$defs/Base"}, second}},
+							"z": sgen.M{"allOf": []any{sgen.M{"$ref": "#/$defs/Base"}, sgen.M{"type": "object", "properties": sgen.M{"note": sgen.M{"type": "string"}}}}}}}
+					mk = func(x, y any) any {
+						d := pairDoc("x", x, "y", y).(M)
+						if y != nil {
+							d["z"] = sgen.DeepCopy(y) // z declares none of it: ignored, never checked
+						}
+						return d
+					}
 				case "array-items":
 					schema = sgen.M{"type": "object", "properties": sgen.M{"a-b": sgen.M{"type": "array", "items": first}, "a_b": sgen.M{"type": "array", "items": second}}}
 					mk = func(x, y any) any { return pairDoc("a-b", wrapArr(x), "a_b", wrapArr(y)) }
